@@ -225,7 +225,7 @@ def run(ctx):
         heavy = heavy[:24]
     scripts = light + heavy
     n_run = len(scripts)
-    for _ in range(60 if q else 600):
+    for _ in range(60 if q else 150):
         s0 = rng.choice(inits)
         s, answers = s0, []
         for _ in range(rng.randrange(3, 15)):
